@@ -52,8 +52,8 @@ func (a lin) scale(f *big.Rat) lin {
 	return n
 }
 
-func (a lin) neg() lin        { return a.scale(big.NewRat(-1, 1)) }
-func (a lin) sub(b lin) lin   { return a.add(b.neg()) }
+func (a lin) neg() lin         { return a.scale(big.NewRat(-1, 1)) }
+func (a lin) sub(b lin) lin    { return a.add(b.neg()) }
 func (a lin) addK(k int64) lin { return a.add(linConst(k)) }
 
 func (a lin) isConst() bool { return len(a.c) == 0 }
@@ -95,8 +95,8 @@ type constraint struct {
 	why string
 }
 
-func geq(a, b lin, why string) constraint { return constraint{a.sub(b), why} }             // a ≥ b
-func gt(a, b lin, why string) constraint  { return constraint{a.sub(b).addK(-1), why} }    // a > b (integers)
+func geq(a, b lin, why string) constraint { return constraint{a.sub(b), why} }          // a ≥ b
+func gt(a, b lin, why string) constraint  { return constraint{a.sub(b).addK(-1), why} } // a > b (integers)
 func eqs(a, b lin, why string) []constraint {
 	return []constraint{geq(a, b, why), geq(b, a, why)}
 }
